@@ -4,7 +4,7 @@ open HydroVerif HydroVerif.C11
 
 /-
 requests (floats as 16 hex digits or `nan`; `codes` = FLOWDIRCODE.ravel() read from grid.py by the harness):
-  acc     nrows ncols [codes] [flowdir] maxcells nodata [field]          -> ok:[acc] | err:<kind>   grid.accumulate(flowdir, field, max_accumulated_cells=maxcells)
+  acc     nrows ncols [codes] [flowdir] maxcells nodata [field]          -> ok:[acc] [order-sensitive cells] | err:<kind>   grid.accumulate(flowdir, field, max_accumulated_cells=maxcells)
   accunit nrows ncols [codes] [flowdir] maxcells nodata                  -> ok:[acc] | err:<kind>   grid.accumulate(flowdir, None, ...)
   cacc    nrows ncols [codes] [flowdir] maxcells nodata [field] [acc0]   -> ok:[acc] | err:<kind>   c_accumulate on given buffers (no default cap)
   accpin / caccpin : same with the pinned (pre-fix) kernel                (diagnostics)
@@ -18,8 +18,10 @@ def errName : Err → String
   | .downstream => "downstream"
   | .oob => "oob"
 
-def fmtRes : Except Err (Array Float) → String
-  | .ok a => "ok:" ++ fmtFloatList a.toList
+/-- reply: the values, then the cells whose value depends on the visiting order of the outer loop
+(terminal cells incremented by a capped walk; none when every walk ends) -/
+def fmtRes (g : FlowGrid) (cap : Int) : Except Err (Array Float) → String
+  | .ok a => "ok:" ++ fmtFloatList a.toList ++ " " ++ fmtIntList (orderSensitive g (fuelOf cap))
   | .error e => "err:" ++ errName e
 
 def grid? (nr nc codes fd : String) : Option FlowGrid :=
@@ -34,19 +36,19 @@ def handle (toks : List String) : String :=
   | [op, nr, nc, codes, fd, mc, nodata, field] =>
     match grid? nr nc codes fd, mc.toInt?, floatTok? nodata, parseFloatList? field with
     | some g, some mc, some nodata, some field =>
-      if op = "acc" then fmtRes (accumulate g mc nodata field.toArray)
-      else if op = "accpin" then fmtRes (cAccumulatePinned g (capOf g mc) nodata field.toArray field.toArray)
+      if op = "acc" then fmtRes g (capOf g mc) (accumulate g mc nodata field.toArray)
+      else if op = "accpin" then fmtRes g (capOf g mc) (cAccumulatePinned g (capOf g mc) nodata field.toArray field.toArray)
       else "bad-op"
     | _, _, _, _ => "bad-op"
   | ["accunit", nr, nc, codes, fd, mc, nodata] =>
     match grid? nr nc codes fd, mc.toInt?, floatTok? nodata with
-    | some g, some mc, some nodata => fmtRes (accumulateUnit g mc nodata)
+    | some g, some mc, some nodata => fmtRes g (capOf g mc) (accumulateUnit g mc nodata)
     | _, _, _ => "bad-op"
   | [op, nr, nc, codes, fd, mc, nodata, field, acc0] =>
     match grid? nr nc codes fd, mc.toInt?, floatTok? nodata, parseFloatList? field, parseFloatList? acc0 with
     | some g, some mc, some nodata, some field, some acc0 =>
-      if op = "cacc" then fmtRes (cAccumulate g mc nodata field.toArray acc0.toArray)
-      else if op = "caccpin" then fmtRes (cAccumulatePinned g mc nodata field.toArray acc0.toArray)
+      if op = "cacc" then fmtRes g mc (cAccumulate g mc nodata field.toArray acc0.toArray)
+      else if op = "caccpin" then fmtRes g mc (cAccumulatePinned g mc nodata field.toArray acc0.toArray)
       else "bad-op"
     | _, _, _, _, _ => "bad-op"
   | ["down", nr, nc, codes, fd, cells] =>
